@@ -3,12 +3,15 @@
    SpecFloat instance, a rounding-error analysis under the standard model of floating-point arithmetic
    (every operation returns exact * (1 + e), |e| <= u), and shows with Flocq that binary64 round-to-nearest satisfies that model
    with u = 2^-53 whenever the exact result of the operation is in the normal range (no underflow / overflow).
-   Not proved: one statement directly on the IEEE instance of [pair] (it needs normal-range side conditions on every
-   intermediate result); the mutual and in-leaf routines reduce to [remote_one] by the exact laws of Properties_C20.
+   The bounds are then transferred to the ACTUAL IEEE computation of one pair (Flocq's operations and the SpecFloat instance), for
+   binary64 (inputs 0 or of magnitude in [2^-160, 2^160]) and binary32 (inputs 0 or of magnitude in [2^-20, 2^20]): under these
+   ranges every intermediate result is normal or exactly zero.  The accumulation over a source list is proved for every arithmetic
+   satisfying the standard model (remote_*_error); the mutual and in-leaf routines reduce to [remote_one] by the exact laws of
+   Properties_C20.
    Axioms: classical reals of Coq's standard library (+ Classical_Prop.classic through Flocq). *)
 From Coq Require Import List Reals.
 From Flocq Require Import Core IEEE754.BinarySingleNaN.
-From Tbfmm Require Import Num.P2PDefs Num.P2PReal Num.P2PError.
+From Tbfmm Require Import Num.P2PDefs Num.P2PReal Num.P2PError Num.P2PError32.
 Local Open Scope R_scope.
 
 (* one pair: potential kernel within 5 u, force components within 16 u (relative) *)
@@ -93,3 +96,36 @@ Theorem C20_b64_pair_error : forall s t : part (binary_float 53 1024), b64_input
   Rabs (B2R fz - f_z _ (contrib sR tR)) <= 16 * bpow radix2 (-53) * Rabs (f_z _ (contrib sR tR)).
 Proof. exact b64_pair_error. Qed.
 Print Assumptions C20_b64_pair_error.
+
+(* ---- the same for the float instantiation: binary32 (prec 24, emax 128), inputs 0 or of magnitude in [2^-20, 2^20]: every
+   intermediate result is finite and normal (or exactly zero), bounds 5 * 2^-24 and 16 * 2^-24; stated on Flocq's operations and on
+   the SpecFloat instance `sf_ops 24 128` that is executed bit for bit against FP2PR<float> ---- *)
+Theorem C20_sf32_pair_bridge : forall s t : part (binary_float 24 128),
+  pair SpecFloat.spec_float (Tbfmm.Num.P2PSF.sf_ops 24 128) (sf_part32 s) (sf_part32 t)
+  = let '(fx, fy, fz, inv) := pair (binary_float 24 128) b32_ops s t in (B2SF fx, B2SF fy, B2SF fz, B2SF inv).
+Proof. exact sf32_pair_bridge. Qed.
+Print Assumptions C20_sf32_pair_bridge.
+
+Theorem C20_b32_pair_error : forall s t : part (binary_float 24 128), b32_inputs_ok s t ->
+  let sR := partR32_of s in let tR := partR32_of t in
+  let '(fx, fy, fz, inv) := pair (binary_float 24 128) b32_ops s t in
+  (is_finite fx = true /\ is_finite fy = true /\ is_finite fz = true /\ is_finite inv = true) /\
+  Rabs (B2R inv - / rdist sR tR) <= 5 * bpow radix2 (-24) * / rdist sR tR /\
+  Rabs (B2R fx - f_x _ (contrib sR tR)) <= 16 * bpow radix2 (-24) * Rabs (f_x _ (contrib sR tR)) /\
+  Rabs (B2R fy - f_y _ (contrib sR tR)) <= 16 * bpow radix2 (-24) * Rabs (f_y _ (contrib sR tR)) /\
+  Rabs (B2R fz - f_z _ (contrib sR tR)) <= 16 * bpow radix2 (-24) * Rabs (f_z _ (contrib sR tR)).
+Proof. exact b32_pair_error. Qed.
+Print Assumptions C20_b32_pair_error.
+
+Theorem C20_sf32_pair_error : forall s t : part (binary_float 24 128), b32_inputs_ok s t ->
+  let sR := partR32_of s in let tR := partR32_of t in
+  let '(fx, fy, fz, inv) := pair SpecFloat.spec_float (Tbfmm.Num.P2PSF.sf_ops 24 128) (sf_part32 s) (sf_part32 t) in
+  Rabs (SF2R radix2 inv - / rdist sR tR) <= 5 * bpow radix2 (-24) * / rdist sR tR /\
+  Rabs (SF2R radix2 fx - f_x _ (contrib sR tR)) <= 16 * bpow radix2 (-24) * Rabs (f_x _ (contrib sR tR)) /\
+  Rabs (SF2R radix2 fy - f_y _ (contrib sR tR)) <= 16 * bpow radix2 (-24) * Rabs (f_y _ (contrib sR tR)) /\
+  Rabs (SF2R radix2 fz - f_z _ (contrib sR tR)) <= 16 * bpow radix2 (-24) * Rabs (f_z _ (contrib sR tR)).
+Proof. exact sf32_pair_error. Qed.
+Print Assumptions C20_sf32_pair_error.
+
+Example C20_b32_inputs_satisfiable : b32_inputs_ok ex32_s ex32_t.
+Proof. exact ex32_inputs_ok. Qed.
